@@ -1,9 +1,10 @@
-import HawkModel.Utf8Lemmas
+import HawkModel.CmgrLemmas
+import HawkModel.Tio
 /-!
 # Lemmas about the tio staging model (C15)
 
 Part 1: on a well-formed BMP stream the read side returns exactly the characters, whatever the chunking
-(`readAll_wf`).  The invariant `Inv st cs` says that the unread staged bytes followed by everything the
+(`readAll_wf`).  The invariant `Inv cm dom st cs` says that the unread staged bytes followed by everything the
 handler will still deliver are the encoding of `cs`.
 -/
 open Hawk.Gen Hawk.Utf8
@@ -54,48 +55,48 @@ theorem pull_ne (c : List UInt8) (rest : List (List UInt8)) (room : Nat) (hc : c
 
 /-- the invariant of the read side on a well-formed stream: what is still unread (the staged bytes from
 the cursor on, then everything the handler will deliver) is the encoding of `cs` -/
-structure Inv (st : InSt) (cs : List Nat) : Prop where
+structure Inv (cm : Cmgr) (dom : Nat → Prop) (st : InSt) (cs : List Nat) : Prop where
   illseq : st.illseq = false
   cur_le : st.cur ≤ st.buf.length
   eof_src : st.eof = true → st.src = []
   noEmpty : NoEmpty st.src
-  stream : st.buf.drop st.cur ++ st.src.flatten = encodeAll T cs
-  bmp : BMP cs
+  stream : st.buf.drop st.cur ++ st.src.flatten = encodeAllC cm cs
+  bmp : Dom dom cs
 
-structure Good (cfg : Cfg) : Prop where
-  tbl : cfg.tbl = T
+structure Good (cfg : Cfg) (cm : Cmgr) (maxlen : Nat) : Prop where
+  tbl : cfg.cm = cm
   legacy : cfg.legacy = false
-  capa : 3 ≤ cfg.capa
+  capa : maxlen ≤ cfg.capa
 
 theorem convPart_x0 (cfg : Cfg) (bufsize : Nat) (st : InSt) (mlen : Nat) (out : List Nat)
-    (h : convUpto cfg.tbl 0x0A bufsize (st.buf.drop st.cur) = .ok (0, mlen, out)) :
+    (h : convUpto cfg.cm 0x0A bufsize (st.buf.drop st.cur) = .ok (0, mlen, out)) :
     convPart cfg bufsize st = .done { st with cur := st.cur + mlen } (.n out) := by
   unfold convPart; rw [h]; simp
 
 theorem convPart_x3_done (cfg : Cfg) (bufsize : Nat) (st : InSt) (mlen : Nat) (out : List Nat)
-    (h : convUpto cfg.tbl 0x0A bufsize (st.buf.drop st.cur) = .ok (-3, mlen, out)) (ho : out ≠ []) :
+    (h : convUpto cfg.cm 0x0A bufsize (st.buf.drop st.cur) = .ok (-3, mlen, out)) (ho : out ≠ []) :
     convPart cfg bufsize st = .done { st with cur := st.cur + mlen } (.n out) := by
   unfold convPart; rw [h]; simp [ho]
 
 theorem convPart_x3_more (cfg : Cfg) (hl : cfg.legacy = false) (bufsize : Nat) (st : InSt) (mlen : Nat)
-    (h : convUpto cfg.tbl 0x0A bufsize (st.buf.drop st.cur) = .ok (-3, mlen, [])) :
+    (h : convUpto cfg.cm 0x0A bufsize (st.buf.drop st.cur) = .ok (-3, mlen, [])) :
     convPart cfg bufsize st = .more (st.buf.drop (st.cur + mlen)) := by
   unfold convPart; rw [h]; simp [hl]
 
-theorem convPart_wf (cfg : Cfg) (hg : Good cfg) (bufsize : Nat) (hb : 1 ≤ bufsize) (st : InSt) (cs : List Nat)
-    (hi : Inv st cs) (hne : st.cur < st.buf.length) :
-    (∃ st' out cs', convPart cfg bufsize st = .done st' (.n out) ∧ out ≠ [] ∧ cs = out ++ cs' ∧ Inv st' cs' ∧
+theorem convPart_wf {cm : Cmgr} {dom : Nat → Prop} {maxlen : Nat} (hok : CodecOk cm dom maxlen) (cfg : Cfg) (hg : Good cfg cm maxlen) (bufsize : Nat) (hb : 1 ≤ bufsize) (st : InSt) (cs : List Nat)
+    (hi : Inv cm dom st cs) (hne : st.cur < st.buf.length) :
+    (∃ st' out cs', convPart cfg bufsize st = .done st' (.n out) ∧ out ≠ [] ∧ cs = out ++ cs' ∧ Inv cm dom st' cs' ∧
         out.length ≤ bufsize) ∨
-    (∃ tail, convPart cfg bufsize st = .more tail ∧ tail ++ st.src.flatten = encodeAll T cs ∧
-        ∃ c cs'', cs = c :: cs'' ∧ tail.length < (encode T c).length) := by
+    (∃ tail, convPart cfg bufsize st = .more tail ∧ tail ++ st.src.flatten = encodeAllC cm cs ∧
+        ∃ c cs'', cs = c :: cs'' ∧ tail.length < (encodeC cm c).length) := by
   obtain ⟨x, mlen, out, cs', hconv, hcs, hml, hdrop, hout, hx, hx3, hx0⟩ :=
-    convUpto_wf 0x0A cs hi.bmp (st.buf.drop st.cur) st.src.flatten bufsize hi.stream
+    convUpto_wf hok 0x0A cs hi.bmp (st.buf.drop st.cur) st.src.flatten bufsize hi.stream
   rw [← hg.tbl] at hconv
   have hmne : st.buf.drop st.cur ≠ [] := by
     intro h0; have := congrArg List.length h0; simp at this; omega
   have hml' : st.cur + mlen ≤ st.buf.length := by simp at hml; omega
-  have hbmp' : BMP cs' := fun c hc => hi.bmp c (by rw [hcs]; simp [hc])
-  have hinv : Inv { st with cur := st.cur + mlen } cs' :=
+  have hbmp' : Dom dom cs' := fun c hc => hi.bmp c (by rw [hcs]; simp [hc])
+  have hinv : Inv cm dom { st with cur := st.cur + mlen } cs' :=
     ⟨hi.illseq, hml', hi.eof_src, hi.noEmpty, by simpa [List.drop_drop, Nat.add_comm] using hdrop, hbmp'⟩
   rcases hx with rfl | rfl
   · -- x = 0
@@ -141,16 +142,16 @@ theorem fill_data (cfg : Cfg) (bufsize : Nat) (st : InSt) (h : (fillP cfg st).1 
   rw [dif_neg h]
   rfl
 
-theorem encodeAll_length_pos (c : Nat) (cs : List Nat) (hc : c < 65536) :
-    (encode T c).length ≤ (encodeAll T (c :: cs)).length := by
-  rw [encodeAll_cons]; simp
+theorem encodeAll_length_pos (cm : Cmgr) (c : Nat) (cs : List Nat) :
+    (encodeC cm c).length ≤ (encodeAllC cm (c :: cs)).length := by
+  rw [encodeAllC_cons]; simp
 
-theorem fill_wf (cfg : Cfg) (hg : Good cfg) (bufsize : Nat) (hb : 1 ≤ bufsize) :
+theorem fill_wf {cm : Cmgr} {dom : Nat → Prop} {maxlen : Nat} (hok : CodecOk cm dom maxlen) (cfg : Cfg) (hg : Good cfg cm maxlen) (bufsize : Nat) (hb : 1 ≤ bufsize) :
     ∀ (n : Nat) (st : InSt) (cs : List Nat), srcBytes st.src < n →
       st.cur = 0 → st.illseq = false → (st.eof = true → st.src = []) → NoEmpty st.src →
-      st.buf ++ st.src.flatten = encodeAll T cs → BMP cs →
-      (∀ c cs'', cs = c :: cs'' → st.buf.length < (encode T c).length) →
-      ∃ st' out cs', fill cfg bufsize st = (st', .n out) ∧ cs = out ++ cs' ∧ Inv st' cs' ∧ (out = [] → cs = []) ∧
+      st.buf ++ st.src.flatten = encodeAllC cm cs → Dom dom cs →
+      (∀ c cs'', cs = c :: cs'' → st.buf.length < (encodeC cm c).length) →
+      ∃ st' out cs', fill cfg bufsize st = (st', .n out) ∧ cs = out ++ cs' ∧ Inv cm dom st' cs' ∧ (out = [] → cs = []) ∧
         out.length ≤ bufsize := by
   intro n
   induction n with
@@ -171,15 +172,15 @@ theorem fill_wf (cfg : Cfg) (hg : Good cfg) (bufsize : Nat) (hb : 1 ≤ bufsize)
         | cons c cs'' =>
           exfalso
           have h1 := hshort c cs'' rfl
-          have h2 := encodeAll_length_pos c cs'' (hbmp c (by simp))
+          have h2 := encodeAll_length_pos cm c cs''
           rw [← hstream] at h2
           omega
       subst hcs
-      have hbuf : st.buf = [] := by simpa [encodeAll_nil] using hstream
+      have hbuf : st.buf = [] := by simpa [encodeAllC_nil] using hstream
       refine ⟨{ st with eof := true, src := (fillP cfg st).2 }, [], [], ?_, by simp, ?_, by simp, by simp⟩
       · rw [fill_eof cfg bufsize st hp1]
         simp [hcur, hbuf]
-      · exact ⟨hill, by simp [hcur], fun _ => hp2, by simp [hp2, NoEmpty], by simp [hbuf, hp2, encodeAll_nil], hbmp⟩
+      · exact ⟨hill, by simp [hcur], fun _ => hp2, by simp [hp2, NoEmpty], by simp [hbuf, hp2, encodeAllC_nil], hbmp⟩
     | cons ch rest =>
       have heof' : st.eof = false := by
         cases he : st.eof with
@@ -191,13 +192,13 @@ theorem fill_wf (cfg : Cfg) (hg : Good cfg) (bufsize : Nat) (hb : 1 ≤ bufsize)
         | nil =>
           exfalso
           rw [hsrc] at hstream
-          simp [encodeAll_nil] at hstream
+          simp [encodeAllC_nil] at hstream
           exact hch hstream.2.1
         | cons c cs'' => exact ⟨c, cs'', rfl⟩
-      have hc : c < 65536 := hbmp c (by rw [hcs]; simp)
+      have hc : dom c := hbmp c (by rw [hcs]; simp)
       have hroom : 1 ≤ cfg.capa - st.buf.length := by
         have := hshort c cs'' hcs
-        have := (enc_len c hc).2
+        have := (hok.enc_len c hc).2
         have := hg.capa
         omega
       have hP : fillP cfg st = pull (ch :: rest) (cfg.capa - st.buf.length) := by
@@ -213,7 +214,7 @@ theorem fill_wf (cfg : Cfg) (hg : Good cfg) (bufsize : Nat) (hb : 1 ≤ bufsize)
         have : 0 < (fillP cfg st).1.length := List.length_pos_iff.mpr hp1
         omega
       let st1 : InSt := { st with buf := st.buf ++ (fillP cfg st).1, src := (fillP cfg st).2 }
-      have hinv1 : Inv st1 cs := by
+      have hinv1 : Inv cm dom st1 cs := by
         refine ⟨hill, by simp [st1, hcur], ?_, hpn, ?_, hbmp⟩
         · intro he; simp [st1, heof'] at he
         · simp only [st1, hcur, List.drop_zero, List.append_assoc, hpf]; exact hstream
@@ -221,7 +222,7 @@ theorem fill_wf (cfg : Cfg) (hg : Good cfg) (bufsize : Nat) (hb : 1 ≤ bufsize)
         have : 0 < (fillP cfg st).1.length := List.length_pos_iff.mpr hp1
         simp [st1, hcur]; omega
       rw [fill_data cfg bufsize st hp1]
-      rcases convPart_wf cfg hg bufsize hb st1 cs hinv1 hne1 with
+      rcases convPart_wf hok cfg hg bufsize hb st1 cs hinv1 hne1 with
         ⟨st', out, cs', hconv, hon, hcs', hinv', hout⟩ | ⟨tail, hconv, htail, c2, cs2, hcs2, hlt⟩
       · refine ⟨st', out, cs', ?_, hcs', hinv', fun h => absurd h hon, hout⟩
         show (match convPart cfg bufsize st1 with | .done st' r => (st', r) | .more tail => _) = _
@@ -235,12 +236,12 @@ theorem fill_wf (cfg : Cfg) (hg : Good cfg) (bufsize : Nat) (hb : 1 ≤ bufsize)
         rw [hconv]
         exact hf
 
-theorem readU_wf (cfg : Cfg) (hg : Good cfg) (bufsize : Nat) (hb : 1 ≤ bufsize) (st : InSt) (cs : List Nat) (hi : Inv st cs) :
-    ∃ st' out cs', readU cfg bufsize st = (st', .n out) ∧ cs = out ++ cs' ∧ Inv st' cs' ∧ (out = [] → cs = []) ∧
+theorem readU_wf {cm : Cmgr} {dom : Nat → Prop} {maxlen : Nat} (hok : CodecOk cm dom maxlen) (cfg : Cfg) (hg : Good cfg cm maxlen) (bufsize : Nat) (hb : 1 ≤ bufsize) (st : InSt) (cs : List Nat) (hi : Inv cm dom st cs) :
+    ∃ st' out cs', readU cfg bufsize st = (st', .n out) ∧ cs = out ++ cs' ∧ Inv cm dom st' cs' ∧ (out = [] → cs = []) ∧
       out.length ≤ bufsize := by
-  have hshort0 : ∀ c cs'', cs = c :: cs'' → ([] : List UInt8).length < (encode T c).length := by
+  have hshort0 : ∀ c cs'', cs = c :: cs'' → ([] : List UInt8).length < (encodeC cm c).length := by
     intro c cs'' h
-    have := (enc_len c (hi.bmp c (by rw [h]; simp))).1
+    have := (hok.enc_len c (hi.bmp c (by rw [h]; simp))).1
     simp; omega
   unfold readU
   by_cases hge : st.cur ≥ st.buf.length
@@ -248,20 +249,20 @@ theorem readU_wf (cfg : Cfg) (hg : Good cfg) (bufsize : Nat) (hb : 1 ≤ bufsize
     have hd : st.buf.drop st.cur = [] := List.drop_eq_nil_of_le hge
     have hs := hi.stream
     rw [hd] at hs
-    exact fill_wf cfg hg bufsize hb (srcBytes st.src + 1) { st with cur := 0, buf := [] } cs (by simp) rfl hi.illseq
+    exact fill_wf hok cfg hg bufsize hb (srcBytes st.src + 1) { st with cur := 0, buf := [] } cs (by simp) rfl hi.illseq
       hi.eof_src hi.noEmpty (by simpa using hs) hi.bmp hshort0
   · rw [if_neg hge]
-    rcases convPart_wf cfg hg bufsize hb st cs hi (by omega) with
+    rcases convPart_wf hok cfg hg bufsize hb st cs hi (by omega) with
       ⟨st', out, cs', hconv, hon, hcs', hinv', hout⟩ | ⟨tail, hconv, htail, c2, cs2, hcs2, hlt⟩
     · rw [hconv]
       exact ⟨st', out, cs', rfl, hcs', hinv', fun h => absurd h hon, hout⟩
     · rw [hconv]
-      exact fill_wf cfg hg bufsize hb (srcBytes st.src + 1) { st with buf := tail, cur := 0 } cs (by simp) rfl hi.illseq
+      exact fill_wf hok cfg hg bufsize hb (srcBytes st.src + 1) { st with buf := tail, cur := 0 } cs (by simp) rfl hi.illseq
         hi.eof_src hi.noEmpty htail hi.bmp (by intro c3 cs3 h3; rw [hcs2] at h3; cases h3; exact hlt)
 
-theorem readLoop_wf (cfg : Cfg) (hg : Good cfg) (size : Nat) :
-    ∀ (k : Nat) (st : InSt) (acc : List Nat) (cs : List Nat), size - acc.length ≤ k → Inv st cs →
-      ∃ st' out cs', readLoop cfg size st acc = (st', .n (acc ++ out)) ∧ cs = out ++ cs' ∧ Inv st' cs' ∧
+theorem readLoop_wf {cm : Cmgr} {dom : Nat → Prop} {maxlen : Nat} (hok : CodecOk cm dom maxlen) (cfg : Cfg) (hg : Good cfg cm maxlen) (size : Nat) :
+    ∀ (k : Nat) (st : InSt) (acc : List Nat) (cs : List Nat), size - acc.length ≤ k → Inv cm dom st cs →
+      ∃ st' out cs', readLoop cfg size st acc = (st', .n (acc ++ out)) ∧ cs = out ++ cs' ∧ Inv cm dom st' cs' ∧
         (acc.length < size → out = [] → cs = []) := by
   intro k
   induction k with
@@ -275,7 +276,7 @@ theorem readLoop_wf (cfg : Cfg) (hg : Good cfg) (size : Nat) :
     by_cases hlt : acc.length < size
     · rw [dif_pos hlt]
       simp only [hi.illseq, Bool.false_eq_true, if_false]
-      obtain ⟨st', out, cs', hr, hcs, hinv, h0, hout⟩ := readU_wf cfg hg (size - acc.length) (by omega) st cs hi
+      obtain ⟨st', out, cs', hr, hcs, hinv, h0, hout⟩ := readU_wf hok cfg hg (size - acc.length) (by omega) st cs hi
       cases out with
       | nil =>
         refine ⟨st', [], cs', ?_, hcs, hinv, fun _ _ => h0 rfl⟩
@@ -290,28 +291,28 @@ theorem readLoop_wf (cfg : Cfg) (hg : Good cfg) (size : Nat) :
     · rw [dif_neg hlt]
       exact ⟨st, [], cs, by simp, by simp, hi, by omega⟩
 
-theorem encodeAll_ne_nil (cs : List Nat) (hb : BMP cs) (h : cs ≠ []) : 0 < (encodeAll T cs).length := by
+theorem encodeAll_ne_nil {cm : Cmgr} {dom : Nat → Prop} {maxlen : Nat} (hok : CodecOk cm dom maxlen) (cs : List Nat) (hb : Dom dom cs) (h : cs ≠ []) : 0 < (encodeAllC cm cs).length := by
   cases cs with
   | nil => exact absurd rfl h
   | cons c cs' =>
-    have := encodeAll_length_pos c cs' (hb c (by simp))
-    have := (enc_len c (hb c (by simp))).1
+    have := encodeAll_length_pos cm c cs'
+    have := (hok.enc_len c (hb c (by simp))).1
     omega
 
-theorem pending_inv (st : InSt) (cs : List Nat) (hi : Inv st cs) : pending st = (encodeAll T cs).length := by
+theorem pending_inv {cm : Cmgr} {dom : Nat → Prop} (st : InSt) (cs : List Nat) (hi : Inv cm dom st cs) : pending st = (encodeAllC cm cs).length := by
   unfold pending
   rw [← hi.stream, srcBytes_eq]
   simp
 
-theorem readAll_wf (cfg : Cfg) (hg : Good cfg) (size : Nat) (hs : 1 ≤ size) :
-    ∀ (k : Nat) (st : InSt) (cs : List Nat), cs.length ≤ k → Inv st cs → readAll cfg size st = (cs, .eof) := by
+theorem readAll_wf {cm : Cmgr} {dom : Nat → Prop} {maxlen : Nat} (hok : CodecOk cm dom maxlen) (cfg : Cfg) (hg : Good cfg cm maxlen) (size : Nat) (hs : 1 ≤ size) :
+    ∀ (k : Nat) (st : InSt) (cs : List Nat), cs.length ≤ k → Inv cm dom st cs → readAll cfg size st = (cs, .eof) := by
   intro k
   induction k with
   | zero =>
     intro st cs hk hi
     have hcs : cs = [] := List.eq_nil_of_length_eq_zero (by omega)
     subst hcs
-    obtain ⟨st', out, cs', hr, hcs, hinv, h0⟩ := readLoop_wf cfg hg size size st [] [] (by simp) hi
+    obtain ⟨st', out, cs', hr, hcs, hinv, h0⟩ := readLoop_wf hok cfg hg size size st [] [] (by simp) hi
     have : out = [] := by
       have := congrArg List.length hcs; simp at this; exact List.eq_nil_of_length_eq_zero (by omega)
     subst this
@@ -321,7 +322,7 @@ theorem readAll_wf (cfg : Cfg) (hg : Good cfg) (size : Nat) (hs : 1 ≤ size) :
     rw [hr]
   | succ k ih =>
     intro st cs hk hi
-    obtain ⟨st', out, cs', hr, hcs, hinv, h0⟩ := readLoop_wf cfg hg size size st [] cs (by simp) hi
+    obtain ⟨st', out, cs', hr, hcs, hinv, h0⟩ := readLoop_wf hok cfg hg size size st [] cs (by simp) hi
     simp only [List.nil_append] at hr
     rw [readAll]
     unfold readUchars
@@ -333,8 +334,8 @@ theorem readAll_wf (cfg : Cfg) (hg : Good cfg) (size : Nat) (hs : 1 ≤ size) :
       rfl
     | cons o out =>
       have hp : pending st' < pending st := by
-        rw [pending_inv st cs hi, pending_inv st' cs' hinv, hcs, encodeAll_append]
-        have := encodeAll_ne_nil (o :: out) (fun c hc => hi.bmp c (by rw [hcs]; exact List.mem_append_left _ hc)) (by simp)
+        rw [pending_inv st cs hi, pending_inv st' cs' hinv, hcs, encodeAllC_append]
+        have := encodeAll_ne_nil hok (o :: out) (fun c hc => hi.bmp c (by rw [hcs]; exact List.mem_append_left _ hc)) (by simp)
         simp; omega
       have hrec := ih st' cs' (by rw [hcs] at hk; simp at hk; omega) hinv
       simp only
@@ -343,8 +344,8 @@ theorem readAll_wf (cfg : Cfg) (hg : Good cfg) (size : Nat) (hs : 1 ≤ size) :
 /-- initial state of a stream delivered in the chunks `src` -/
 def start (src : List (List UInt8)) : InSt := { src := src }
 
-theorem inv_start (chunks : List (List UInt8)) (cs : List Nat) (hb : BMP cs) (hne : NoEmpty chunks)
-    (hj : chunks.flatten = encodeAll T cs) : Inv (start chunks) cs :=
+theorem inv_start {cm : Cmgr} {dom : Nat → Prop} (chunks : List (List UInt8)) (cs : List Nat) (hb : Dom dom cs) (hne : NoEmpty chunks)
+    (hj : chunks.flatten = encodeAllC cm cs) : Inv cm dom (start chunks) cs :=
   ⟨rfl, by simp [start], by simp [start], hne, by simpa [start] using hj, hb⟩
 
 /-! ## Part 2: arbitrary bytes — no fault, nothing stored beyond the caller's room, the staging buffer within its capacity, progress -/
@@ -368,24 +369,24 @@ def RetOk (bufsize : Nat) : Ret → Prop
   | .fault _ => False
 
 theorem convPart_x1_ign (cfg : Cfg) (bufsize : Nat) (st : InSt) (mlen : Nat) (out : List Nat)
-    (h : convUpto cfg.tbl 0x0A bufsize (st.buf.drop st.cur) = .ok (-1, mlen, out)) (hi : cfg.ignoreEcerr = true)
+    (h : convUpto cfg.cm 0x0A bufsize (st.buf.drop st.cur) = .ok (-1, mlen, out)) (hi : cfg.ignoreEcerr = true)
     (hr : cfg.legacy = true ∨ out.length < bufsize) :
     convPart cfg bufsize st = .done { st with cur := st.cur + mlen + 1 } (.n (out ++ [0x3F])) := by
   unfold convPart; rw [h]; simp [hi, hr]
 
 theorem convPart_x1_full (cfg : Cfg) (bufsize : Nat) (st : InSt) (mlen : Nat) (out : List Nat)
-    (h : convUpto cfg.tbl 0x0A bufsize (st.buf.drop st.cur) = .ok (-1, mlen, out)) (hi : cfg.ignoreEcerr = true)
+    (h : convUpto cfg.cm 0x0A bufsize (st.buf.drop st.cur) = .ok (-1, mlen, out)) (hi : cfg.ignoreEcerr = true)
     (hl : cfg.legacy = false) (hr : ¬ out.length < bufsize) :
     convPart cfg bufsize st = .done { st with cur := st.cur + mlen } (.n out) := by
   unfold convPart; rw [h]; simp [hi, hr, hl]
 
 theorem convPart_x1_err (cfg : Cfg) (bufsize : Nat) (st : InSt) (mlen : Nat)
-    (h : convUpto cfg.tbl 0x0A bufsize (st.buf.drop st.cur) = .ok (-1, mlen, [])) (hi : cfg.ignoreEcerr = false) :
+    (h : convUpto cfg.cm 0x0A bufsize (st.buf.drop st.cur) = .ok (-1, mlen, [])) (hi : cfg.ignoreEcerr = false) :
     convPart cfg bufsize st = .done { st with cur := st.cur + mlen } (.err .eecerr) := by
   unfold convPart; rw [h]; simp [hi]
 
 theorem convPart_x1_defer (cfg : Cfg) (bufsize : Nat) (st : InSt) (mlen : Nat) (out : List Nat)
-    (h : convUpto cfg.tbl 0x0A bufsize (st.buf.drop st.cur) = .ok (-1, mlen, out)) (hi : cfg.ignoreEcerr = false)
+    (h : convUpto cfg.cm 0x0A bufsize (st.buf.drop st.cur) = .ok (-1, mlen, out)) (hi : cfg.ignoreEcerr = false)
     (ho : out ≠ []) :
     convPart cfg bufsize st = .done { st with cur := st.cur + mlen, illseq := true } (.n out) := by
   unfold convPart; rw [h]; simp [hi, ho]
@@ -395,12 +396,12 @@ def Ret.count : Ret → Nat
   | .n out => out.length
   | _ => 0
 
-theorem convUpto_mlen0 (tbl : List Utf8Row) (stopper wcap : Nat) (s : List UInt8) (x : Int) (mlen : Nat)
-    (h : convUpto tbl stopper wcap s = .ok (x, mlen, [])) : mlen = 0 := by
+theorem convUpto_mlen0 (cm : Cmgr) (hdec : DecTotal cm) (stopper wcap : Nat) (s : List UInt8) (x : Int) (mlen : Nat)
+    (h : convUpto cm stopper wcap s = .ok (x, mlen, [])) : mlen = 0 := by
   by_cases hs : s = []
   · subst hs; rw [convUpto_nil] at h; simp at h; exact h.2.symm
-  · obtain ⟨⟨n, w⟩, hd⟩ := utf8ToUc_ok tbl s hs
-    rw [convUpto_step tbl stopper wcap s n w hs hd] at h
+  · obtain ⟨⟨n, w⟩, hd⟩ := hdec s hs
+    rw [convUpto_step cm stopper wcap s n w hs hd] at h
     split at h
     · simp at h; exact h.2.symm
     · split at h
@@ -411,12 +412,12 @@ theorem convUpto_mlen0 (tbl : List Utf8Row) (stopper wcap : Nat) (s : List UInt8
           · simp at h
           · split at h <;> simp at h
 
-theorem convPart_safe (cfg : Cfg) (hl : cfg.legacy = false) (bufsize : Nat) (st : InSt) (hs : Safe cfg st) :
+theorem convPart_safe (cfg : Cfg) (hdec : DecTotal cfg.cm) (hl : cfg.legacy = false) (bufsize : Nat) (st : InSt) (hs : Safe cfg st) :
     (∃ st' r, convPart cfg bufsize st = .done st' r ∧ Safe cfg st' ∧ RetOk bufsize r ∧ st'.src = st.src ∧
         st'.eof = st.eof ∧ pending st' + r.count ≤ pending st) ∨
     (convPart cfg bufsize st = .more (st.buf.drop st.cur)) := by
   obtain ⟨x, mlen, out, hc, ho1, ho2, hm, hx, hxn, hx0⟩ :=
-    convUpto_total cfg.tbl 0x0A (st.buf.drop st.cur).length (st.buf.drop st.cur) bufsize (Nat.le_refl _)
+    convUpto_total cfg.cm hdec 0x0A (st.buf.drop st.cur).length (st.buf.drop st.cur) bufsize (Nat.le_refl _)
   have hm' : st.cur + mlen ≤ st.buf.length := by simp at hm; have := hs.1; omega
   have hpend : ∀ (il : Bool), pending { st with cur := st.cur + mlen, illseq := il } + out.length ≤ pending st := by
     intro il; simp [pending]; omega
@@ -442,7 +443,7 @@ theorem convPart_safe (cfg : Cfg) (hl : cfg.legacy = false) (bufsize : Nat) (st 
     by_cases ho : out = []
     · right
       subst ho
-      have hml : mlen = 0 := convUpto_mlen0 _ _ _ _ _ _ hc
+      have hml : mlen = 0 := convUpto_mlen0 _ hdec _ _ _ _ _ hc
       subst hml
       simpa using convPart_x3_more _ hl _ _ _ hc
     · exact Or.inl ⟨_, _, convPart_x3_done _ _ _ _ _ hc ho, ⟨hm', hs.2⟩, ho1, rfl, rfl, hpend st.illseq⟩
@@ -455,7 +456,7 @@ theorem fillP_facts (cfg : Cfg) (st : InSt) :
   · simp
   · exact ⟨pull_bytes _ _, pull_le _ _⟩
 
-theorem fill_safe (cfg : Cfg) (hl : cfg.legacy = false) (bufsize : Nat) (hb : 1 ≤ bufsize) :
+theorem fill_safe (cfg : Cfg) (hdec : DecTotal cfg.cm) (hl : cfg.legacy = false) (bufsize : Nat) (hb : 1 ≤ bufsize) :
     ∀ (n : Nat) (st : InSt), srcBytes st.src < n → Safe cfg st →
       ∃ st' r, fill cfg bufsize st = (st', r) ∧ Safe cfg st' ∧ RetOk bufsize r ∧ pending st' + r.count ≤ pending st := by
   intro n
@@ -487,7 +488,7 @@ theorem fill_safe (cfg : Cfg) (hl : cfg.legacy = false) (bufsize : Nat) (hb : 1 
       have hp1' : pending st1 = pending st := by
         have := hs.1
         simp [pending, st1]; omega
-      rcases convPart_safe cfg hl bufsize st1 hs1 with ⟨st', r, hc, hs', hr, _, _, hpend⟩ | hc
+      rcases convPart_safe cfg hdec hl bufsize st1 hs1 with ⟨st', r, hc, hs', hr, _, _, hpend⟩ | hc
       · refine ⟨st', r, ?_, hs', hr, by omega⟩
         show (match convPart cfg bufsize st1 with | .done st' r => (st', r) | .more tail => _) = _
         rw [hc]
@@ -501,27 +502,27 @@ theorem fill_safe (cfg : Cfg) (hl : cfg.legacy = false) (bufsize : Nat) (hb : 1 
             simp [pending, st1]
           omega
 
-theorem readU_safe (cfg : Cfg) (hl : cfg.legacy = false) (bufsize : Nat) (hb : 1 ≤ bufsize) (st : InSt) (hs : Safe cfg st) :
+theorem readU_safe (cfg : Cfg) (hdec : DecTotal cfg.cm) (hl : cfg.legacy = false) (bufsize : Nat) (hb : 1 ≤ bufsize) (st : InSt) (hs : Safe cfg st) :
     ∃ st' r, readU cfg bufsize st = (st', r) ∧ Safe cfg st' ∧ RetOk bufsize r ∧ pending st' + r.count ≤ pending st := by
   unfold readU
   by_cases hge : st.cur ≥ st.buf.length
   · rw [if_pos hge]
-    obtain ⟨st', r, hf, hs', hr, hp⟩ := fill_safe cfg hl bufsize hb (srcBytes st.src + 1) { st with cur := 0, buf := [] } (by simp)
+    obtain ⟨st', r, hf, hs', hr, hp⟩ := fill_safe cfg hdec hl bufsize hb (srcBytes st.src + 1) { st with cur := 0, buf := [] } (by simp)
       ⟨by simp, by simp⟩
     refine ⟨st', r, hf, hs', hr, ?_⟩
     have : pending { st with cur := 0, buf := [] } = pending st := by simp [pending]; omega
     omega
   · rw [if_neg hge]
-    rcases convPart_safe cfg hl bufsize st hs with ⟨st', r, hc, hs', hr, _, _, hpend⟩ | hc
+    rcases convPart_safe cfg hdec hl bufsize st hs with ⟨st', r, hc, hs', hr, _, _, hpend⟩ | hc
     · rw [hc]; exact ⟨st', r, rfl, hs', hr, hpend⟩
     · rw [hc]
-      obtain ⟨st', r, hf, hs', hr, hp⟩ := fill_safe cfg hl bufsize hb (srcBytes st.src + 1)
+      obtain ⟨st', r, hf, hs', hr, hp⟩ := fill_safe cfg hdec hl bufsize hb (srcBytes st.src + 1)
         { st with buf := st.buf.drop st.cur, cur := 0 } (by simp) ⟨by simp, by have := hs.2; simp; omega⟩
       refine ⟨st', r, hf, hs', hr, ?_⟩
       have : pending { st with buf := st.buf.drop st.cur, cur := 0 } = pending st := by simp [pending]
       omega
 
-theorem readLoop_safe (cfg : Cfg) (hl : cfg.legacy = false) (size : Nat) :
+theorem readLoop_safe (cfg : Cfg) (hdec : DecTotal cfg.cm) (hl : cfg.legacy = false) (size : Nat) :
     ∀ (k : Nat) (st : InSt) (acc : List Nat), size - acc.length ≤ k → Safe cfg st → acc.length ≤ size →
       ∃ st' r, readLoop cfg size st acc = (st', r) ∧ Safe cfg st' ∧ RetOk size r ∧
         pending st' + r.count ≤ pending st + acc.length ∧ (∀ out, r = .n out → acc.length ≤ out.length) := by
@@ -542,7 +543,7 @@ theorem readLoop_safe (cfg : Cfg) (hl : cfg.legacy = false) (size : Nat) :
         refine ⟨_, _, rfl, ⟨hs.1, hs.2⟩, trivial, by simp [pending, Ret.count], by intro out h; cases h⟩
       | false =>
         simp only [Bool.false_eq_true, if_false]
-        obtain ⟨st', r, hr, hs', hok, hp⟩ := readU_safe cfg hl (size - acc.length) (by omega) st hs
+        obtain ⟨st', r, hr, hs', hok, hp⟩ := readU_safe cfg hdec hl (size - acc.length) (by omega) st hs
         cases r with
         | n out =>
           cases out with
@@ -570,14 +571,14 @@ theorem readLoop_safe (cfg : Cfg) (hl : cfg.legacy = false) (size : Nat) :
       exact ⟨st, _, rfl, hs, ha, by simp [Ret.count], by intro out h; cases h; exact Nat.le_refl _⟩
 
 /-- the caller's loop over arbitrary bytes always ends in `eof` or `err`: no fault, never stuck -/
-theorem readAll_safe (cfg : Cfg) (hl : cfg.legacy = false) (size : Nat) :
+theorem readAll_safe (cfg : Cfg) (hdec : DecTotal cfg.cm) (hl : cfg.legacy = false) (size : Nat) :
     ∀ (k : Nat) (st : InSt), pending st ≤ k → Safe cfg st →
       (readAll cfg size st).2 = .eof ∨ ∃ e, (readAll cfg size st).2 = .err e := by
   intro k
   induction k with
   | zero =>
     intro st hk hs
-    obtain ⟨st', r, hr, hs', hok, hp, _⟩ := readLoop_safe cfg hl size size st [] (by simp) hs (by simp)
+    obtain ⟨st', r, hr, hs', hok, hp, _⟩ := readLoop_safe cfg hdec hl size size st [] (by simp) hs (by simp)
     rw [readAll]; unfold readUchars; rw [hr]
     cases r with
     | n out =>
@@ -588,7 +589,7 @@ theorem readAll_safe (cfg : Cfg) (hl : cfg.legacy = false) (size : Nat) :
     | fault f => exact absurd hok (by simp [RetOk])
   | succ k ih =>
     intro st hk hs
-    obtain ⟨st', r, hr, hs', hok, hp, _⟩ := readLoop_safe cfg hl size size st [] (by simp) hs (by simp)
+    obtain ⟨st', r, hr, hs', hok, hp, _⟩ := readLoop_safe cfg hdec hl size size st [] (by simp) hs (by simp)
     rw [readAll]; unfold readUchars; rw [hr]
     cases r with
     | n out =>
